@@ -22,6 +22,7 @@
 //   clog <0|1>                       -> ok        (chart log on/off; when on every line gets ` || <chart log>` appended)
 //   newchart <x>                     -> chart=<cid|-1>     (AtlasStateSpace::newChart)
 //   ipscan <cid>                     -> scanned=<k>  (directed inPolytope/borderCheck queries around every boundary of the chart)
+//   settol <bits> | setmaxiter <k>   -> ok        (Constraint::setTolerance / setMaxIterations mid-script; existing charts are kept)
 //   anchor <x>                       -> ok                            (AtlasStateSpace::anchorChart; no-op for proj)
 //   sample u | sample n <x> <d> | sample g <x> <sd>   -> s=<x> | <events>
 //   geo <interp> <from> <to>         -> ok=<b> n=<k> <states> | <events>
@@ -848,6 +849,17 @@ int main()
                         }
                 }
                 std::cout << "scanned=" << cnt << "\n";
+            }
+            else if (op == "settol" && t.size() == 2 && vp::parseBits(t[1]))
+            {
+                // mid-script: charts that already exist are kept (no atlas->clear())
+                con->setTolerance(*vp::parseBits(t[1]));
+                std::cout << "ok\n";
+            }
+            else if (op == "setmaxiter" && t.size() == 2 && vp::parseNat(t[1]))
+            {
+                con->setMaxIterations((unsigned)*vp::parseNat(t[1]));
+                std::cout << "ok\n";
             }
             else if (op == "params" && t.size() == 1)
             {
